@@ -13,6 +13,12 @@ op line, and checks
 * failure: after `w!` / `w$` nothing further of that handler or of the handlers it interrupted is executed;
 * `on_start` is the first handler, `on_stop` the last; suspended handlers run (once each) when nothing else runs;
 * the final lane values equal the tracked ones;
+* a `@drop(n)` / `@take(n)` command (`mdrop`, `mtake`) removes its keys one at a time in ASCENDING KEY ORDER (numeric:
+  2 before 10), the lane's `on_remove k prev` running after each removal and seeing the map without the keys removed
+  before it; an `on_remove` of a key whose turn has not come is `drop-take-handlers-out-of-key-order`;
+* `transform_entry` (`wt` intent): insert / replace ⇒ `on_update k prev new` with the tracked previous entry (none for
+  an insert), remove ⇒ `on_remove k prev`, no change ⇒ no handler; reads through `with_entry` (`y`) are checked like
+  `get_entry` reads;
 * sync requests (`vsync`, `msync`) and reads of the lanes' output by the runtime (`rd`) run no handler at all: a
   lifecycle entry during such an op is a `spurious-trigger` (a change's handlers run exactly once — not again when
   the write of the change's event completes).
@@ -62,6 +68,19 @@ def pEvAux : List Char → Option (Ev × List Char)
     let r ← pEat ':' r
     let (v, r) ← pOptInt r
     pure (.gotE m k v, r)
+  | 'y' :: cs => do
+    let (m, r) ← pDigit cs
+    let r ← pEat '.' r
+    let (k, r) ← pNat r
+    let r ← pEat ':' r
+    let (v, r) ← pOptInt r
+    pure (.gotW m k v, r)
+  | 'w' :: 't' :: cs => do
+    let (m, r) ← pDigit cs
+    let r ← pEat '.' r
+    let (k, r) ← pNat r
+    let (x, r) ← pXf r
+    pure (.wxf m k x, r)
   | 'w' :: 's' :: cs => do
     let (l, r) ← pDigit cs
     let r ← pEat '=' r
@@ -142,6 +161,7 @@ inductive Req
   | mupd (m k : Nat) (n : Int)
   | mrem (m k : Nat)
   | mclr (m : Nat)
+  | mdt (m : Nat) (drop : Bool) (n : Nat)     -- `@drop(n)` / `@take(n)`
   | sync            -- a sync request: `ValueLaneSync` / `MapLaneSync` change nothing and trigger nothing
   deriving DecidableEq, Repr
 
@@ -168,6 +188,7 @@ structure Mon where
   inReq : Bool := false
   susp : Nat := 0
   reqs : List Req := []
+  dtQueue : List (Nat × Nat) := []   -- (map, key): removals of the running take/drop still to come, in key order
   after : After := .normal
   justFailed : Bool := false        -- a handler failed and no other top-level handler has started since
   stopSeen : Bool := false          -- `<P` … has run
@@ -225,6 +246,12 @@ def Mon.change (m : Mon) (e : Ev) : Mon × List Ev :=
     | some p => ({ m with maps := m.maps.set i (alErase (m.mapOf i) k) }, [.enRem i k p])
     | none => (m, [])
   | .wclr i => ({ m with maps := m.maps.set i [] }, [.enClr i (m.mapOf i)])
+  | .wxf i k f =>
+    -- `transform_entry`: insert / replace ⇒ `on_update k prev new`; remove ⇒ `on_remove k prev`; no change ⇒ nothing
+    match f.app (alGet (m.mapOf i) k), alGet (m.mapOf i) k with
+    | some v2, prev => ({ m with maps := m.maps.set i (alSet (m.mapOf i) k v2) }, [.enUpd i k prev v2])
+    | none, some p => ({ m with maps := m.maps.set i (alErase (m.mapOf i) k) }, [.enRem i k p])
+    | none, none => (m, [])
   | _ => (m, [])
 
 def Req.intent : Req → Option Ev
@@ -233,6 +260,7 @@ def Req.intent : Req → Option Ev
   | .mupd m k n => some (.wupd m k n)
   | .mrem m k => some (.wrem m k)
   | .mclr m => some (.wclr m)
+  | .mdt .. => none
   | .sync => none
 
 def Req.lane : Req → Nat
@@ -241,6 +269,7 @@ def Req.lane : Req → Nat
   | .mupd m _ _ => 10 + m
   | .mrem m _ => 10 + m
   | .mclr m => 10 + m
+  | .mdt m _ _ => 10 + m
   | .sync => 97
 
 def evLane : Ev → Nat
@@ -258,12 +287,13 @@ def takeReq (m : Mon) (lane : Nat) : List Req → Option (Req × List Req)
     if r.lane = lane then
       match r with
       | .mrem i k => if (alGet (m.mapOf i) k).isNone then takeReq m lane rest else some (r, rest)
+      | .mdt i d n => if (dropTakeKeys (m.mapOf i) d n).isEmpty then takeReq m lane rest else some (r, rest)
       | _ => some (r, rest)
     else (takeReq m lane rest).map fun p => (p.1, r :: p.2)
 
 def Mon.fail (m : Mon) (isStop : Bool) : Mon :=
   -- every open handler is abandoned
-  let m1 := { m with stack := [], base := [], inReq := false, justFailed := true }
+  let m1 := { m with stack := [], base := [], inReq := false, justFailed := true, dtQueue := [] }
   match m.cur, isStop with
   | some .start, _ => { m1 with cur := none, after := .nothing, ended := some "nostart", alive := false }
   | some .stop, true => { m1 with cur := none, after := .nothing, alive := false }
@@ -272,17 +302,41 @@ def Mon.fail (m : Mon) (isStop : Bool) : Mon :=
   | some .susp, false => { m1 with cur := none, after := .nothing, ended := some "failed", alive := false }
   | _, false => { m1 with cur := none }   -- a rejected command: the agent carries on
 
-def Mon.token1 (m : Mon) (e : Ev) : Mon × Option String :=
+/-- `on_remove` of a key that the running take/drop is going to remove LATER (its turn has not come). -/
+def dtOutOfOrder (m : Mon) (e : Ev) : Bool :=
+  match e with
+  | .enRem i k _ => m.dtQueue.contains (i, k)
+  | _ => false
+
+/-- Between two removals of a take/drop (nothing open, nothing pending): the next key of the queue is removed now;
+its `on_remove` must be the next entry. A key that is no longer there is skipped (`MapLaneRemove` of an absent key). -/
+def Mon.nextRemoval : Nat → Mon → Mon
+  | 0, m => m
+  | f + 1, m =>
+    if m.stack.isEmpty && m.base.isEmpty then
+      match m.dtQueue with
+      | (i, k) :: rest =>
+        let r := ({ m with dtQueue := rest } : Mon).change (.wrem i k)
+        if r.2.isEmpty then Mon.nextRemoval f r.1
+        else { r.1 with base := r.2 }
+      | [] => m
+    else m
+
+/-- A change has just happened: the handler `x` must start now (`rest`: what must follow it at the same level). -/
+def Mon.expect (m : Mon) (x : Ev) (rest : List Ev) (e : Ev) : Mon × Option String :=
+  if evSame x e then
+    match exitOf x with
+    | some ex => ({ (m.setPending rest) with stack := { exit := ex, pending := [] } :: (m.setPending rest).stack }, none)
+    | none => (m, some "internal")
+  else if samePrevButValue x e then (m, some "wrong-previous-value")
+  else if dtOutOfOrder m e then (m, some "drop-take-handlers-out-of-key-order")
+  else if isLifecycleEnter e then (m, some "wrong-trigger")
+  else (m, some "missing-trigger")
+
+def Mon.token1 (m0 : Mon) (e : Ev) : Mon × Option String :=
+  let m := Mon.nextRemoval (m0.dtQueue.length + 1) m0
   match m.pendingNow with
-  | x :: rest =>
-    -- a change has just happened: its handler must start now
-    if evSame x e then
-      match exitOf x with
-      | some ex => ({ (m.setPending rest) with stack := { exit := ex, pending := [] } :: (m.setPending rest).stack }, none)
-      | none => (m, some "internal")
-    else if samePrevButValue x e then (m, some "wrong-previous-value")
-    else if isLifecycleEnter e then (m, some "wrong-trigger")
-    else (m, some "missing-trigger")
+  | x :: rest => m.expect x rest e
   | [] =>
     match e with
     | .enTop t =>
@@ -315,7 +369,8 @@ def Mon.token1 (m : Mon) (e : Ev) : Mon × Option String :=
       | f :: rest =>
         if f.exit == e then
           let m1 := { m with stack := rest }
-          (if rest.isEmpty && m.cur.isNone && m1.base.isEmpty then { m1 with inReq := false } else m1, none)
+          (if rest.isEmpty && m.cur.isNone && m1.base.isEmpty && m1.dtQueue.isEmpty then { m1 with inReq := false }
+           else m1, none)
         else (m, some "bad-nesting")
       | [] => (m, some "bad-nesting")
     | .enEvent .. | .enUpd .. | .enRem .. | .enClr .. =>
@@ -338,13 +393,24 @@ def Mon.token1 (m : Mon) (e : Ev) : Mon × Option String :=
               else if samePrevButValue x e then (m, some "wrong-previous-value")
               else (m, some "wrong-trigger")
             | [] => (m, some "spurious-trigger")
-          | none => (m, some "spurious-trigger")
+          | none =>
+            match r with
+            | .mdt i d n =>
+              -- a take/drop starts: its removals come one at a time in ascending key order, each followed by the
+              -- lane's handlers; the first one is due now
+              let keys := (dropTakeKeys (m.mapOf i) d n).map fun k => (i, k)
+              let m1 : Mon := { m with reqs := rest, inReq := true, justFailed := false, dtQueue := keys }
+              let m2 := Mon.nextRemoval (keys.length + 1) m1
+              match m2.base with
+              | x :: more => m2.expect x more e
+              | [] => (m, some "internal")
+            | _ => (m, some "spurious-trigger")
         | none => (m, some "spurious-trigger")
     | .enSet .. => (m, some "spurious-trigger")
     | .wfail => if m.stack.isEmpty then (m, some "effect-outside-handler") else (m.fail false, none)
     | .wstop => if m.stack.isEmpty then (m, some "effect-outside-handler") else (m.fail true, none)
     | .wsusp => if m.stack.isEmpty then (m, some "effect-outside-handler") else ({ m with susp := m.susp + 1 }, none)
-    | .wset .. | .wupd .. | .wrem .. | .wclr .. =>
+    | .wset .. | .wupd .. | .wrem .. | .wclr .. | .wxf .. =>
       if m.stack.isEmpty then (m, some "effect-outside-handler")
       else
         let (m1, exp) := m.change e
@@ -352,7 +418,7 @@ def Mon.token1 (m : Mon) (e : Ev) : Mon × Option String :=
     | .got l v =>
       if m.stack.isEmpty then (m, some "effect-outside-handler")
       else if m.valOf l = v then (m, none) else (m, some "stale-read")
-    | .gotE i k v =>
+    | .gotE i k v | .gotW i k v =>
       if m.stack.isEmpty then (m, some "effect-outside-handler")
       else if alGet (m.mapOf i) k = v then (m, none) else (m, some "stale-read")
     | .eff _ => if m.stack.isEmpty then (m, some "effect-outside-handler") else (m, none)
@@ -380,11 +446,14 @@ def renderTracked (m : Mon) : String :=
 
 /-- Checks at quiescence (end of an op). -/
 def Mon.finish (m : Mon) (status : String) (state : String) : Mon × Option String :=
+  -- removals of a take/drop whose keys are still there have not been made
+  let m := Mon.nextRemoval (m.dtQueue.length + 1) m
   if !m.stack.isEmpty || !m.pendingNow.isEmpty then (m, some "handler-not-finished")
   else
     -- requests that trigger nothing (remove of an absent key) are applied silently
     let silent := m.reqs.all fun r => match r with
       | .mrem i k => (alGet (m.mapOf i) k).isNone
+      | .mdt i d n => (dropTakeKeys (m.mapOf i) d n).isEmpty
       | .sync => true
       | _ => false
     if m.alive then
@@ -408,6 +477,8 @@ def parseReq (parts : List String) : Option Req :=
   | ["mupd", i, k, n] => do let i ← i.toNat?; let k ← k.toNat?; let n ← parseInt n; pure (.mupd i k n)
   | ["mrem", i, k] => do let i ← i.toNat?; let k ← k.toNat?; pure (.mrem i k)
   | ["mclr", i] => do let i ← i.toNat?; pure (.mclr i)
+  | ["mdrop", i, n] => do let i ← i.toNat?; let n ← n.toNat?; pure (.mdt i true n)
+  | ["mtake", i, n] => do let i ← i.toNat?; let n ← n.toNat?; pure (.mdt i false n)
   | ["vsync", _] => some .sync
   | ["msync", _] => some .sync
   | _ => none
